@@ -33,6 +33,34 @@ def closed (gates : List (String × List String)) (includes : List (String × St
 def supported (rows : List (String × String × String × Nat)) (fs : FeatureSet) : List Nat :=
   (rows.filter fun r => fs.contains r.1).map fun r => r.2.2.2
 
+/-- Cargo: selecting a feature enables the features it lists, transitively. Worklist with fuel (every
+step either drops a name already seen or adds a new one; `cargo.length + |sel|`·`cargo.length` is ample —
+the theorems that use `enables` check on the regenerated table that the worklist ran empty). -/
+def enablesAux (cargo : List (String × List String)) : Nat → List String → List String → List String × Bool
+  | _, [], acc => (acc.reverse, true)
+  | 0, _ :: _, acc => (acc.reverse, false)
+  | fuel + 1, f :: todo, acc =>
+    if acc.contains f then enablesAux cargo fuel todo acc
+    else
+      let next := ((lookup cargo f).getD []).filter fun x => cargo.any (·.1 == x)
+      enablesAux cargo fuel (todo ++ next) (f :: acc)
+
+def fuelFor (cargo : List (String × List String)) (sel : List String) : Nat :=
+  sel.length + (cargo.map fun r => r.2.length + 1).sum + 1
+
+/-- all features enabled by the selection `sel` (including `sel`) -/
+def enables (cargo : List (String × List String)) (sel : List String) : List String :=
+  (enablesAux cargo (fuelFor cargo sel) sel []).1
+
+/-- the worklist ran empty within the fuel -/
+def enablesComplete (cargo : List (String × List String)) (sel : List String) : Bool :=
+  (enablesAux cargo (fuelFor cargo sel) sel []).2
+
+/-- the message-type features: what `all_msgs` enables, minus group features (features that enable
+other features) -/
+def msgFeatures (cargo : List (String × List String)) : List String :=
+  (enables cargo ["all_msgs"]).filter fun f => lookup cargo f == some []
+
 def allFeaturesKnown (cargo : List (String × List String)) (names : List String) : Bool :=
   names.all fun n => cargo.any (·.1 == n)
 
